@@ -40,13 +40,33 @@ def _fin(v):
     return v
 
 
+def _exp(a):
+    """exp with a range guard: mpmath computes exp of a number like 1e40 by shifting a mantissa that many bits (MemoryError);
+    a value that large is outside every comparison made here anyway"""
+    r = a.real if isinstance(a, mp.mpc) else a
+    if not mp.isfinite(r) or abs(r) > 10 ** 6:
+        raise Undefined('exp argument out of range')
+    return mp.exp(a)
+
+
+def _power(a, b):
+    if a != 0:
+        try:
+            big = abs(mp.re(b * mp.log(a)))
+        except Exception:
+            big = 0
+        if not mp.isfinite(big) or big > 10 ** 6:
+            raise Undefined('power out of range')
+    return mp.power(a, b)
+
+
 def _pow_abs(a, b):
     a = abs(a)
     if a == 0:
         if b > 0:
             return mp.mpf(0)
         raise Undefined('0**nonpos')
-    return mp.power(a, b)
+    return _power(a, b)
 
 
 def _log_abs(a):
@@ -108,13 +128,13 @@ def eval_tree(t, x, a):
         if op in ('log_abs', 'log'):
             return _log_abs(u)
         if op == 'exp':
-            return mp.exp(u)
+            return _exp(u)
         if op == 'sin':
             return mp.sin(u)
         if op in ('abs', 'Abs'):
             return abs(u)
         if op == 'tenexp':
-            return mp.power(10, u)
+            return _power(mp.mpf(10), u)
         if op == 'log10_abs':
             return _log_abs(u) / mp.log(10)
         raise ValueError(op)
@@ -171,7 +191,7 @@ def _rpow(a, b):
         if b == 0:
             return mp.mpf(1)
         raise Undefined('0**neg')
-    return mp.power(a, b)
+    return _power(a, b)
 
 
 def _sign(a):
@@ -199,10 +219,10 @@ def compile_expr(s):
 def esr_namespace(mode):
     """mode 'esr': the meaning ESR gives library strings (pow/sqrt/log act on absolute values);
        mode 'plain': plain sympy meaning (used for substitution values)."""
-    ns = {'zoo': mp.inf, 'oo': mp.inf, 'nan': mp.nan, '__mpf': mp.mpf, '__pow': _rpow, '__div': _div, 'Abs': abs, 'exp': mp.exp, 'sin': mp.sin, 'cos': mp.cos,
+    ns = {'zoo': mp.inf, 'oo': mp.inf, 'nan': mp.nan, '__mpf': mp.mpf, '__pow': _rpow, '__div': _div, 'Abs': abs, 'exp': _exp, 'sin': mp.sin, 'cos': mp.cos,
           'sign': _sign, 'atan2': mp.atan2, 're': mp.re, 'im': mp.im, 'arg': mp.arg, 'tan': mp.tan, 'I': mp.mpc(0, 1), 'E': mp.e, 'pi': mp.pi, 'inv': lambda a: _div(mp.mpf(1), a), 'square': lambda a: a * a,
           'cube': lambda a: a * a * a, 'sqrt_abs': lambda a: mp.sqrt(abs(a)), 'log_abs': _log_abs,
-          'log10_abs': lambda a: _log_abs(a) / mp.log(10), 'tenexp': lambda a: mp.power(10, a), 'pow_abs': _pow_abs}
+          'log10_abs': lambda a: _log_abs(a) / mp.log(10), 'tenexp': lambda a: _power(mp.mpf(10), a), 'pow_abs': _pow_abs}
     if mode == 'esr':
         ns.update({'pow': _pow_abs, 'sqrt': lambda a: mp.sqrt(abs(a)), 'log': lambda a, b=None: _log_abs(a) if b is None else _log_abs(a) / mp.log(b)})
     else:
@@ -235,7 +255,7 @@ def eval_string(s, x, a, mode='esr', complex_ok=False):
         return _fin_c(v) if complex_ok else _fin(v)
     except Undefined:
         raise
-    except (ZeroDivisionError, OverflowError, ValueError, TypeError, NameError, SyntaxError, AttributeError) as e:
+    except (ZeroDivisionError, OverflowError, ValueError, TypeError, NameError, SyntaxError, AttributeError, MemoryError) as e:
         raise Undefined('%s: %s' % (type(e).__name__, e))
 
 
